@@ -66,14 +66,24 @@ fn uvr(n: u8) -> UVR {
     }
 }
 
+fn auth_ext_inputs(ext: u8) -> Option<webauthn::AuthenticationExtensionsClientInputs> {
+    use webauthn::{AuthenticationExtensionsPrfInputs as P, AuthenticationExtensionsPrfValues as V};
+    match ext {
+        0 => None,
+        1 => Some(webauthn::AuthenticationExtensionsClientInputs { cred_props: Some(true), prf: None, prf_already_hashed: None }),
+        2 => Some(webauthn::AuthenticationExtensionsClientInputs { cred_props: None, prf: Some(P { eval: None, eval_by_credential: None }), prf_already_hashed: None }),
+        _ => Some(webauthn::AuthenticationExtensionsClientInputs { cred_props: None, prf: Some(P { eval: Some(V { first: vec![1, 2, 3].into(), second: None }), eval_by_credential: None }), prf_already_hashed: None }),
+    }
+}
+
 /// Apply one action; findings only matter for the last step of a history.
 fn apply(store: &Shared<RefStore>, act: &Act) -> (Vec<(String, String)>, String) {
     let mut fs: Vec<(String, String)> = vec![];
     match act {
         Act::Register { rp, user } => {
             let org = REG_ORGS[*rp as usize % 2];
-            let c = super::c02::Case { challenge: challenges()[4].clone(), user: *user, org, algs: 1, mode: Mode::Default, counter: false, memory_store: false, id_len: None, rk: true, decor: false };
-            let mut client = mk_client(store.clone(), ScriptedUv::consenting(Log::new()), org, &AuthCfg::default());
+            let c = super::c02::Case { challenge: challenges()[4].clone(), user: *user, org, algs: 1, mode: Mode::Default, counter: false, memory_store: false, id_len: None, rk: true, decor: false, ext: (*rp + *user) % 4 };
+            let mut client = mk_client(store.clone(), ScriptedUv::consenting(Log::new()), org, &super::c02::ext_cfg(c.ext, false, None));
             let rc = super::c02::check_registration(&mut client, &|| store.recs(), &c);
             (rc.findings, format!("register:{}", rc.outcome))
         }
@@ -95,7 +105,13 @@ fn apply(store: &Shared<RefStore>, act: &Act) -> (Vec<(String, String)>, String)
             };
             let eligible: Vec<&Rec> = before.iter().filter(|r| r.rp == rp_eff && list.as_ref().map_or(true, |l| l.is_empty() || l.contains(&r.id))).collect();
             let ch = challenges()[*challenge as usize % challenges().len()].clone();
-            let mut opts = request_options(Auth { rp_id: rp_arg.map(|s| s.to_string()), challenge: ch.clone(), allow: list.clone(), uv: uvr(*uv), extensions: None });
+            // extension interplay, decided by challenge index, requirement and origin so that every allow
+            // shape meets every value: 0 none; 1 hmac-secret authenticator, request asks credProps; 2
+            // authenticator without the capability, empty prf object; 3 the same, prf evaluation
+            // requested (no output, no failure).  A prf member on a capable authenticator is C09's
+            // subject: it is an error for credentials without secrets, which these histories hold
+            let ext = ((*challenge as usize + *uv as usize + org as usize) % 4) as u8;
+            let mut opts = request_options(Auth { rp_id: rp_arg.map(|s| s.to_string()), challenge: ch.clone(), allow: list.clone(), uv: uvr(*uv), extensions: auth_ext_inputs(ext) });
             if *allow == Allow::UnknownTypeUnknownId {
                 for d in opts.public_key.allow_credentials.iter_mut().flatten() {
                     d.ty = PublicKeyCredentialType::Unknown;
@@ -117,7 +133,7 @@ fn apply(store: &Shared<RefStore>, act: &Act) -> (Vec<(String, String)>, String)
             }
             let log = Log::new();
             let uvm = if *uv == 3 { ScriptedUv::consenting(log.clone()).outcome(UvOutcome::Ok { presence: true, verification: false }) } else { ScriptedUv::consenting(log.clone()) };
-            let mut client = mk_client(Logging { inner: store.clone(), log: log.clone() }, uvm, org, &AuthCfg::default());
+            let mut client = mk_client(Logging { inner: store.clone(), log: log.clone() }, uvm, org, &super::c02::ext_cfg(if ext == 1 { 1 } else { 0 }, false, None));
             let res = authenticate(&mut client, org, *mode, opts);
             let after = store.0.lock().unwrap().recs_ordered();
             match res {
